@@ -937,6 +937,81 @@ fn resolver_leg(rng: &mut Rng, sim: &mut verif_harness::netsim::Sim, sh: &mut Sh
     }
 }
 
+/// C05, alias leg: a question whose answer starts with a CNAME link learnt from upstream.  Once the TTL of that first
+/// link has elapsed (its target may well still be alive, and nothing has pruned the cache), the link is no longer a
+/// record the cache may serve: the resolver has to put the question name to an upstream server again.  An answer that
+/// still opens with the link and was produced without any exchange about the question name served it from the cache.
+fn alias_leg(rng: &mut Rng, sim: &mut verif_harness::netsim::Sim, sh: &mut Shard) {
+    use dns_resolver::util::types::ProtocolMode;
+    use verif_harness::netsim::{encode, reply_to, Action, Ctx, Mode, Responder};
+    use verif_harness::universe::{self, GenCfg};
+    let cfg = GenCfg {
+        max_depth: rng.range(1, 3),
+        max_zones: rng.range(2, 6),
+        v4_only: 4,
+        v6_only: 0,
+        allow_glueless: rng.bool(),
+        cname_chains: rng.range(2, 4),
+    };
+    let u = Arc::new(universe::generate(rng, &cfg));
+    let mut zones = dns_types::zones::types::Zones::new();
+    zones.insert(u.hints_zone());
+    let cache = SharedCache::new();
+    let mode = Mode::recursive(ProtocolMode::OnlyV4, 53);
+    let responder = |u: Arc<universe::Universe>| -> Responder {
+        Box::new(move |ctx: &Ctx| {
+            let Some(req) = ctx.request else { return (Action::Fail, "bad".into()) };
+            let r = u.serve(ctx.addr.ip(), &req.questions[0]);
+            (Action::Reply(encode(&reply_to(req, r.rcode, r.aa, r.answers, r.authority, r.additional))), r.kind.to_string())
+        })
+    };
+    let Some(q) = universe::questions(rng, &u, 24).into_iter().find(|q| {
+        let e = u.expected(&q.name, q.qtype);
+        !e.chain.is_empty() && !e.finals.is_empty() && u.host_by_name(&q.name).is_none() && e.chain[0].name == q.name
+    }) else {
+        sh.count("alias-leg:no-alias-question-in-universe", 1);
+        return;
+    };
+    let want = u.expected(&q.name, q.qtype);
+    let head = want.chain[0].clone();
+    let t0: u64 = 10 * SEC;
+    verif_clock::set_thread_nanos(Some(t0));
+    sh.eval();
+    let first = sim.resolve(responder(u.clone()), &mode, &zones, &cache, &q);
+    let Ok(Ok(r1)) = &first.result else {
+        sh.count("alias-leg:first-resolution-failed(see C07)", 1);
+        return;
+    };
+    let asked_head = |log: &[verif_harness::netsim::Exchange]| log.iter().any(|x| x.request.as_ref().is_some_and(|m| m.questions.first().is_some_and(|qq| qq.name == q.name)));
+    if !asked_head(&first.log) || !r1.clone().rrs().iter().any(|r| r.name == head.name && r.rtype_with_data == head.rtype_with_data) {
+        sh.count("alias-leg:first-answer-not-learnt-upstream", 1);
+        return;
+    }
+    // the first link's lifetime is over (by 0..2 s and a fraction); what lies behind it may be alive or not
+    let now = t0 + u64::from(head.ttl) * SEC + rng.below(3) as u64 * SEC + rng.below(900) as u64 * 1_000_000;
+    verif_clock::set_thread_nanos(Some(now));
+    sh.eval();
+    let second = sim.resolve(responder(u.clone()), &mode, &zones, &cache, &q);
+    let replay = |detail: String| json!({"kind": "resolver-cache-alias-leg", "question": question_json(&q), "universe": u.describe(), "detail": detail});
+    match &second.result {
+        Ok(Ok(r2)) => {
+            let rrs2 = r2.clone().rrs();
+            let target_alive = want.finals.iter().any(|r| r.ttl > head.ttl + 3) || want.chain.iter().skip(1).any(|r| r.ttl > head.ttl + 3);
+            if rrs2.iter().any(|r| r.name == head.name && r.rtype_with_data == head.rtype_with_data) && !asked_head(&second.log) {
+                sh.violation(
+                    "C05:resolver:alias-link-served-from-cache-after-its-ttl-elapsed",
+                    format!("{} (ttl {}) answered {} ms after it was learnt without asking upstream about its owner", show_rr(&head), head.ttl, (now - t0) / 1_000_000),
+                    replay(format!("answer {}", serde_json::to_string(&rrs_json(&rrs2)).unwrap_or_default())),
+                );
+                return;
+            }
+            sh.nontrivial(fnv_mix(verif_harness::rng::fnv(show_name(&q.name).as_bytes()), u64::from(head.ttl)));
+            sh.count(if target_alive { "alias-leg:link-refetched-while-what-follows-was-still-cached" } else { "alias-leg:link-refetched-after-expiry" }, 1);
+        }
+        _ => sh.count("alias-leg:second-resolution-failed", 1),
+    }
+}
+
 fn engine(args: Args) {
     quiet_panics();
     let prop = args.prop.clone();
@@ -1029,6 +1104,7 @@ fn engine(args: Args) {
             let mut sim = verif_harness::netsim::Sim::new();
             for _ in 0..(n_univ / THREADS as u64) {
                 resolver_leg(&mut rng, &mut sim, sh);
+                alias_leg(&mut rng, &mut sim, sh);
             }
             verif_clock::set_thread_nanos(None);
         });
